@@ -546,7 +546,7 @@ func Main(prop, level string, assumptions []string, run func(c *Check), replay R
 		outcomes += int64(len(st.Outcomes))
 		withChoice += int64(st.WithChoice)
 		scen = append(scen, map[string]any{"scenario": st.Scenario, "execs": st.Execs, "bound": st.Bound, "capped": st.Capped, "frontier_left": st.Frontier,
-			"distinct_outcomes": len(st.Outcomes), "max_choice_points": st.MaxPoints, "max_tasks": st.MaxTasks, "max_preemptions_seen": st.MaxPreempt, "by_status": st.ByStatus, "state_keys": st.StateKeys, "pruned_execs": st.PrunedExecs})
+			"distinct_outcomes": len(st.Outcomes), "max_choice_points": st.MaxPoints, "max_tasks": st.MaxTasks, "max_preemptions_seen": st.MaxPreempt, "by_status": st.ByStatus, "state_keys": st.StateKeys, "pruned_execs": st.PrunedExecs, "execs_ending_with_parked_workers": st.ParkedExecs})
 		if len(merged.Samples) < 4 && len(st.Samples) > 0 {
 			merged.Samples = append(merged.Samples, map[string]any{"scenario": st.Scenario, "schedule": toInts(st.Samples[len(st.Samples)-1])})
 		}
